@@ -21,6 +21,7 @@ class FieldInfo:
     default_src: Optional[str] = None  # python source of default / "factory:<src>"
     discriminator: Optional[str] = None
     raw_value: Optional[str] = None
+    module: Optional[str] = None  # module of the class that defines the field: forward references resolve there
 
     @property
     def key(self) -> str:
@@ -212,6 +213,7 @@ def extract_module(name: str, tree: ast.Module, src: str) -> Module:
                             continue  # pydantic: an annotated name with a leading underscore is a private attribute, not a field
                         fi = ci.fields.get(n) or FieldInfo(n, st.annotation)
                         fi.ann = st.annotation
+                        fi.module = name
                         if st.value is not None:
                             fi.raw_value = ast.unparse(st.value)
                             fi.alias = None
